@@ -42,3 +42,5 @@ Fixpoint upd {A} (l : list A) (i : nat) (x : A) : list A :=
 Definition updN {A} (l : list A) (i : N) (x : A) : list A := upd l (N.to_nat i) x.
 
 Definition lenN {A} (l : list A) : N := N.of_nat (length l).
+
+Definition seqN (n : N) : list N := map N.of_nat (seq 0 (N.to_nat n)).
